@@ -141,6 +141,8 @@ type Engine struct {
 	forceInline map[*ssa.Function]bool
 	inlineExternal map[string]bool
 	unrollLimit int
+	forRange    map[*ssa.Function]map[string]string
+	loopAl      map[*ssa.Function]loopAlignment
 	tier      string
 	nameSnap  map[string][][2]string
 	dryStop   []*LoopInfo
